@@ -97,8 +97,23 @@ class LexModel:
                         return None
                     out.append((k, p))
                 else:
-                    return None
+                    v = self._eval(x, env)
+                    if not isinstance(v, str):
+                        return None
+                    out.append(v)
             return out
+        if isinstance(e, ast.Call) and isinstance(e.func, ast.Attribute) and e.func.attr == "join" and len(e.args) == 1 and not e.keywords:
+            sep, seq = self._eval(e.func.value, env), self._eval(e.args[0], env)
+            if isinstance(sep, str) and isinstance(seq, list) and all(isinstance(x, str) for x in seq):
+                return sep.join(seq)
+            return None
+        if isinstance(e, ast.BinOp) and isinstance(e.op, ast.Add):
+            a, b = self._eval(e.left, env), self._eval(e.right, env)
+            if isinstance(a, list) and isinstance(b, list):
+                return a + b
+        if isinstance(e, ast.Call) and isinstance(e.func, ast.Name) and e.func.id in ("list", "tuple") and len(e.args) == 1:
+            v = self._eval(e.args[0], env)
+            return list(v) if isinstance(v, list) else None
         return None
 
     def _exec(self, body, envs):
@@ -109,11 +124,42 @@ class LexModel:
                     new_envs.append((env, cond))
                     continue
                 if isinstance(st, ast.Expr):
+                    v = st.value
+                    # list building: rules.append((kind, pattern)) / stops.append(x) / rules.extend([...])
+                    if isinstance(v, ast.Call) and isinstance(v.func, ast.Attribute) and v.func.attr in ("append", "extend", "insert") and isinstance(v.func.value, ast.Name) and isinstance(env.get(v.func.value.id), list) and not v.keywords:
+                        env = dict(env)
+                        cur = list(env[v.func.value.id])
+                        if v.func.attr == "append" and len(v.args) == 1:
+                            item = self._eval(ast.List(elts=[v.args[0]], ctx=ast.Load()), env)
+                            if item is None:
+                                raise AnchorMissing(f"compile_liquid_rules: cannot evaluate `{text(st)[:60]}` statically")
+                            cur += item
+                        elif v.func.attr == "extend" and len(v.args) == 1:
+                            items = self._eval(v.args[0], env)
+                            if not isinstance(items, list):
+                                raise AnchorMissing(f"compile_liquid_rules: cannot evaluate `{text(st)[:60]}` statically")
+                            cur += items
+                        elif v.func.attr == "insert" and len(v.args) == 2 and isinstance(v.args[0], ast.Constant) and isinstance(v.args[0].value, int):
+                            item = self._eval(ast.List(elts=[v.args[1]], ctx=ast.Load()), env)
+                            if item is None:
+                                raise AnchorMissing(f"compile_liquid_rules: cannot evaluate `{text(st)[:60]}` statically")
+                            cur[v.args[0].value : v.args[0].value] = item
+                        else:
+                            raise AnchorMissing(f"compile_liquid_rules: unsupported list operation `{text(st)[:60]}`")
+                        env[v.func.value.id] = cur
                     new_envs.append((env, cond))
-                elif isinstance(st, ast.Assign) and len(st.targets) == 1 and isinstance(st.targets[0], ast.Name):
+                elif isinstance(st, ast.AugAssign) and isinstance(st.target, ast.Name) and isinstance(st.op, ast.Add):
+                    env = dict(env)
+                    a, b = env.get(st.target.id), self._eval(st.value, env)
+                    if isinstance(a, (str, list)) and type(a) is type(b):
+                        env[st.target.id] = a + b
+                    else:
+                        raise AnchorMissing(f"compile_liquid_rules: cannot evaluate `{text(st)[:60]}` statically")
+                    new_envs.append((env, cond))
+                elif (isinstance(st, ast.Assign) and len(st.targets) == 1 and isinstance(st.targets[0], ast.Name)) or (isinstance(st, ast.AnnAssign) and isinstance(st.target, ast.Name) and st.value is not None):
                     env = dict(env)
                     v = self._eval(st.value, env)
-                    name = st.targets[0].id
+                    name = st.targets[0].id if isinstance(st, ast.Assign) else st.target.id
                     if isinstance(st.value, ast.Call) and text(st.value.func) == "re.escape" and isinstance(st.value.args[0], ast.Name):
                         self.escaped_vars[name] = st.value.args[0].id
                     if v is None:
